@@ -127,6 +127,30 @@ theorem witness_rewrapped_commit :
     (deliver (deliver wClient wCopyLate 0).1 wGood 0).1.g.path = [] ∧
     (deliver (deliver (deliver wClient wCopyLate 0).1 wGood 0).1 wCopyLate 0).2 = .unprocessable := by decide
 
+/-! ### a third way (signature `retagged-commit-rollback`): the `h` tag of a wrapper is not authenticated either.
+    After the receiver applied a commit that ROTATED the nostr group id, a sibling of that commit re-published
+    under the NEW id is found, opens (past-epoch secret), is judged 'better' by its wrapper timestamp, and the
+    receiver rolls back — which restores the OLD id; the re-processing then looks the same event up again, under
+    the restored id, and fails with GroupNotFound.  The refusal leaves the client one epoch back, the rotation
+    commit EpochInvalidated for ever. -/
+def wRot : Ev := { n := 1, ts := 20, idnum := 7, cipher := 1, sender := 0, path := [], kind := .commit (.setData { initData [0] 1 with nid := 8 }) [] }
+def wSib : Ev := { n := 2, ts := 10, idnum := 9, cipher := 2, sender := 1, path := [], kind := .commit .selfUpdate [] }
+def wSibRetag : Ev := { wSib with n := 3, idnum := 4, tag := 8 }
+theorem witness_retagged_commit_rollback :
+    (deliver wClient wRot 0).2 = .commit ∧ (deliver wClient wRot 0).1.g.recNid = 8 ∧
+    (deliver (deliver wClient wRot 0).1 wSibRetag 0).2 = .err eGroupNotFound ∧
+    (deliver (deliver wClient wRot 0).1 wSibRetag 0).1.g.path = [] ∧
+    (deliver (deliver wClient wRot 0).1 wSibRetag 0).1.g.recNid = 0 ∧
+    (deliver (deliver (deliver wClient wRot 0).1 wSibRetag 0).1 wRot 0).2 = .unprocessable ∧
+    -- the original sibling (old id) is still applicable afterwards — unless it was offered in between
+    (deliver (deliver (deliver wClient wRot 0).1 wSibRetag 0).1 wSib 0).2 = .commit ∧
+    (deliver (deliver (deliver (deliver wClient wRot 0).1 wSib 0).1 wSibRetag 0).1 wSib 0).2 = .unprocessable := by decide
+
+theorem refuse_frame_full_false_retag : ¬ refuse_frame_full := by
+  intro h
+  have := h (deliver wClient wRot 0).1 wSibRetag 0 (by decide) (by decide)
+  revert this; decide
+
 /-- non-vacuity of `refuse_frame_partial`: a refused duplicate in a state with a snapshot -/
 example : isBetter wAfterGood (epochOf wGood.path) wGood = false ∧ isRefusal (deliver wAfterGood { wGood with n := 9, ts := 30 } 0).2 = true := by
   decide
